@@ -40,12 +40,42 @@ def gen(seed, tier):
     else:
         for j in range(256):
             cases.append(("C17-all-%d" % j, "K", "-", "%d:%d:%d" % (j * 65536, 65536, 1)))
+    # the code shown in the ROW, whatever format the aircraft was first heard on (every supported DF creates rows) and
+    # whatever follows: first frame of each format, then other formats, +/-U
+    g = Gen(seed * 1000003 + 17)
+    r = g.r
+    bl = blocks()
+    for i in range(40 if tier == "quick" else 400):
+        o = {"U": 1} if i % 2 else {}
+        segs = []
+        for _ in range(4):
+            f, n, c = r.choice(bl)
+            a = r.choice([f, f + n - 1, f + r.randrange(n), (f + n) & 0xFFFFFF or 1, r.getrandbits(24) or 1])
+            first = r.choice([0, 4, 5, 11, 16, 17, 18, 18, 20, 21])
+            def mk(df):
+                if df in (0, 4, 5):
+                    return g.f_short(df, a)
+                if df == 11:
+                    return g.f_df11(a)
+                if df in (17, 18):
+                    return g.f_df17(a, g.me_random_tc(), df=df)
+                return g.f_long(df, a)
+            segs.append(seg(0, [mk(first)]))
+            segs.append(seg(0, [mk(r.choice([4, 5, 11, 17, 18, 20]))]))
+        cases.append(H("C17-h%d" % i, o, segs))
     return cases
 
 
 def oracle(parts, outcome, obs):
-    if outcome != "ok":
+    if outcome.replace("+slow", "") != "ok":
         return "outcome %s" % outcome
+    if parts[1] == "H":
+        import pyspec
+        for k, o in enumerate(obs.split("#")):
+            for a, row in pyspec.rows_of(o).items():
+                if row.get("reg", "").strip('"') != spec(a):
+                    return "segment %d: aircraft %06X shows country %s, Annex 10 block list says %s" % (k, a, row.get("reg"), spec(a))
+        return None
     start, count, step = [int(x) for x in parts[3].split(":")]
     codes = obs.split(",")
     if len(codes) != count:
@@ -61,7 +91,7 @@ def oracle(parts, outcome, obs):
 
 
 CLAIM = {
-    "text": "Theorems C17_country / C17_blocks_disjoint / C17_row (Coq, closed): for every address below 2^24 the country code computed from the prefix table -- regenerated from country_icao_mask.rs on every run -- equals the code of the Annex 10 allocation block containing the address and '??' outside every block; no address lies in two blocks; the code stored in a new row is that code. The translator is validated each run by executing the real function on all 16384 14-bit prefixes at three offsets plus strided samples (quick) or on all 16,777,216 addresses (thorough), against both the extracted model and the frozen block list.",
+    "text": "Theorems C17_country / C17_blocks_disjoint / C17_row (Coq, closed): for every address below 2^24 the country code computed from the prefix table -- regenerated from country_icao_mask.rs on every run -- equals the code of the Annex 10 allocation block containing the address and '??' outside every block; no address lies in two blocks; the code stored in a new row is that code, and OVER ALL HISTORIES the country field of every row of every reachable table is the code of the row's address (C17_reachable_rows: no update function writes it). The translator is validated each run by executing the real function on all 16384 14-bit prefixes at three offsets plus strided samples (quick) or on all 16,777,216 addresses (thorough), against both the extracted model and the frozen block list; rows created by a first frame of every supported format (DF18 included) and updated by others are checked against the block list.",
     "note": "The reference (Spec/Annex10.v) is a frozen transcription of the ICAO table; any later edit of the Rust table is judged against it.",
     "technique": "Coq proof: factor-through-prefix lemmas for table and block list + reflection sweep over 2^14 prefixes on the regenerated table; exhaustive translator validation",
 }
